@@ -139,7 +139,8 @@ def targets(link, name):
 def matches(link, name, pattern):
     """RFC 6690 section 4.1: without trailing '*' the value must be identical to
     the pattern, with it the rest of the pattern must be a prefix of the value.
-    A link that does not carry the attribute has no value and cannot match."""
+    A link that does not carry the attribute has no value and cannot match. (A bare `*` asks for the presence of
+    the attribute, with or without value: callers use has() for that.)"""
     if pattern.endswith("*"):
         pre = pattern[:-1]
         return any(t.startswith(pre) for t in targets(link, name))
